@@ -1885,6 +1885,48 @@ fn main() {
                 }
             }
         }
+        // lru_cache <capacity> op:key:value ... : the operations (insert / get / remove) on a real LRUCache<u64, u64>, next to an ordered
+        // list (most recently used first) as reference: what every insert / get observed, len() at the end, and the values every
+        // handle still reads at the end
+        "lru_cache" => {
+            let cap: usize = a[1].parse().unwrap();
+            let mut ops: Vec<(String, u64, u64)> = vec![];
+            for t in &a[2..] {
+                let p: Vec<&str> = t.split(':').collect();
+                ops.push((p[0].to_string(), p[1].parse().unwrap(), p[2].parse().unwrap()));
+            }
+            let mut reference: Vec<(u64, u64)> = vec![];
+            let (mut want_seen, mut want_handles) = (vec![], vec![]);
+            for (op, k, v) in &ops {
+                let pos = reference.iter().position(|e| e.0 == *k);
+                match op.as_str() {
+                    "insert" => {
+                        if let Some(i) = pos { reference.remove(i); }
+                        reference.insert(0, (*k, *v));
+                        reference.truncate(cap);
+                        want_seen.push(Some(*v));
+                        want_handles.push(*v);
+                    }
+                    "get" => match pos {
+                        Some(i) => {
+                            let e = reference.remove(i);
+                            reference.insert(0, e);
+                            want_seen.push(Some(e.1));
+                            want_handles.push(e.1);
+                        }
+                        None => want_seen.push(None),
+                    },
+                    _ => {
+                        if let Some(i) = pos { reference.remove(i); }
+                        want_seen.push(None);
+                    }
+                }
+            }
+            let (seen, len, at_end) = v::lru_cache_scenario(cap, &ops);
+            println!("observed={:?} len {} handles {:?}", seen, len, at_end);
+            println!("expected={:?} len {} handles {:?}", want_seen, reference.len(), want_handles);
+            println!("agree={}", seen == want_seen && len == reference.len() && at_end == want_handles);
+        }
         // linked_list op:arg ... : the operations (push:i / push_front:i add element 100 + i; pop; pop_front; remove:k removes the k-th
         // listed node) on a real LinkedList<u64>, next to a VecDeque as reference
         "linked_list" => {
